@@ -272,7 +272,6 @@ func TestC04Runs(t *testing.T) {
 	st.mu.Unlock()
 }
 
-
 // TestC15Sizes: referential transparency and the pipe law around functions that might
 // work in place beyond a size threshold: the same array is read again after (or piped
 // out of) a function call.
